@@ -278,6 +278,32 @@ func partialCollisions() [][2]string {
 	return partialPairs
 }
 
+// twinsPair builds two arrays over members that are EQUAL under the set and
+// multiset readings but spelled differently ([1,2] / [2,1], objects holding
+// such arrays), so that a diff removes, keeps or adds several twins at once.
+func twinsPair(r *gen.RNG) ([]any, []any) {
+	pool := []any{[]any{1.0, 2.0}, []any{2.0, 1.0}, map[string]any{"t": []any{1.0, 2.0, 2.0}}, map[string]any{"t": []any{2.0, 2.0, 1.0}}, map[string]any{"t": []any{2.0, 1.0, 2.0}}, 3.0, "x", []any{1.0, 2.0}}
+	mk := func(n int) []any {
+		var l []any
+		for k := 0; k < n; k++ {
+			l = append(l, ref.Clone(gen.Pick(r, pool)))
+		}
+		return l
+	}
+	a := mk(r.Range(2, 6))
+	var b []any
+	for _, e := range a {
+		if r.Chance(0.5) {
+			b = append(b, ref.Clone(e))
+		}
+	}
+	b = append(b, mk(r.Range(0, 2))...)
+	if b == nil {
+		b = []any{}
+	}
+	return a, b
+}
+
 // trickyPairs: document pairs whose difference is easy to lose for code that
 // compares through a printed or joined form of keys or values.
 var trickyPairs = [][2]string{
